@@ -13,7 +13,8 @@
                    query point has an explicit zero coefficient (F-C07b).  Cancelling weights such as f1 + f2 - f2 are ACCEPTED
                    (the repaired F-C07a; see the regression examples at the end).
     Without [op_guard] the statement is refuted ([C07_inv_refuted_*]). *)
-From Coq Require Import List QArith Reals Qreals Lra Bool Arith.
+From Coq Require Import String List QArith Reals Qreals Lra Bool Arith.
+From PV Require Import Gen.Classes.
 From PV Require Import Base.IPS Model.Dict Model.Terms Model.Func Spec.Sem
   Proofs.DictLemmas Proofs.C07Dict Proofs.C07Inv Proofs.C07Ops Proofs.C07Main Proofs.C07Thm Proofs.C07InvB.
 Import ListNotations.
@@ -172,6 +173,52 @@ Proof.
   exact (fun a b c Na Nb Nc => conj (peqb_refl a Na) (conj (peqb_sym a b Na Nb) (peqb_trans a b c Na Nb Nc))).
 Qed.
 
+(** Leaves that are instances of the 24 shipped classes: the effective flag of [Cls(..., reuse_gradient=d)] is
+    [leaf_reuse Cls d = class_forced Cls || d].  The specification [class_forced] agrees, class by class, with
+    what the translator reads in the constructors of /repo on every run (Gen/Classes.v, fail-closed: a
+    constructor that neither forces True nor forwards its argument is not translated and this file no longer
+    compiles); the harness checks the same rule, and the behaviour "same gradient object iff the flag is True",
+    on the real objects of all 24 classes. *)
+Example C07_class_flags_agree_with_source :
+  class_forced "BlockSmoothConvexFunction" = force_reuse_BlockSmoothConvexFunction /\
+  class_forced "ConvexFunction" = force_reuse_ConvexFunction /\
+  class_forced "ConvexIndicatorFunction" = force_reuse_ConvexIndicatorFunction /\
+  class_forced "ConvexLipschitzFunction" = force_reuse_ConvexLipschitzFunction /\
+  class_forced "ConvexQGFunction" = force_reuse_ConvexQGFunction /\
+  class_forced "ConvexSupportFunction" = force_reuse_ConvexSupportFunction /\
+  class_forced "RsiEbFunction" = force_reuse_RsiEbFunction /\
+  class_forced "SmoothConvexFunction" = force_reuse_SmoothConvexFunction /\
+  class_forced "SmoothConvexLipschitzFunction" = force_reuse_SmoothConvexLipschitzFunction /\
+  class_forced "SmoothFunction" = force_reuse_SmoothFunction /\
+  class_forced "SmoothStronglyConvexFunction" = force_reuse_SmoothStronglyConvexFunction /\
+  class_forced "SmoothStronglyConvexQuadraticFunction" = force_reuse_SmoothStronglyConvexQuadraticFunction /\
+  class_forced "StronglyConvexFunction" = force_reuse_StronglyConvexFunction /\
+  class_forced "CocoerciveOperator" = force_reuse_CocoerciveOperator /\
+  class_forced "CocoerciveStronglyMonotoneOperator" = force_reuse_CocoerciveStronglyMonotoneOperator /\
+  class_forced "LinearOperator" = force_reuse_LinearOperator /\
+  class_forced "LipschitzOperator" = force_reuse_LipschitzOperator /\
+  class_forced "LipschitzStronglyMonotoneOperator" = force_reuse_LipschitzStronglyMonotoneOperator /\
+  class_forced "MonotoneOperator" = force_reuse_MonotoneOperator /\
+  class_forced "NegativelyComonotoneOperator" = force_reuse_NegativelyComonotoneOperator /\
+  class_forced "NonexpansiveOperator" = force_reuse_NonexpansiveOperator /\
+  class_forced "SkewSymmetricLinearOperator" = force_reuse_SkewSymmetricLinearOperator /\
+  class_forced "StronglyMonotoneOperator" = force_reuse_StronglyMonotoneOperator /\
+  class_forced "SymmetricLinearOperator" = force_reuse_SymmetricLinearOperator.
+Proof. repeat split; reflexivity. Qed.
+
+(** ... hence a leaf of a class that is differentiable by nature, or declared with reuse_gradient=True, has one
+    gradient per point (I2 instantiated with the class rule); for the other declarations I1 still gives one
+    value per point and a new subgradient may be returned. *)
+Theorem C07_class_leaf_one_gradient :
+  forall ops, ops_ok ops = true -> let s := run ops in
+  forall (cls : string) (declared : bool) f t1 t2,
+    (f < nfun s)%nat -> f_reuse (getf s f) = leaf_reuse cls declared ->
+    class_forced cls = true \/ declared = true ->
+    In t1 (f_pts (getf s f)) -> In t2 (f_pts (getf s f)) ->
+    dict_eqb Nat.eqb (xof t1) (xof t2) = true ->
+    forall (E : ips) (rho : nat -> E), veq (evalP rho (gof t1)) (evalP rho (gof t2)).
+Proof. exact class_leaf_one_gradient. Qed.
+
 (** I6 — a sum declared differentiable (reuse_gradient) only has differentiable terms.  (The flag is the
     conjunction over all operands of the construction, cancelled ones included, so a sum may be declared
     non-differentiable although its remaining terms are differentiable; the property allows that: "a
@@ -259,3 +306,4 @@ Print Assumptions C07_dict_equality_is_equivalence.
 Print Assumptions C07_lookup_is_vector_equality.
 Print Assumptions C07_point_algebra_normal_form.
 Print Assumptions C07_differentiable_sum_has_differentiable_terms.
+Print Assumptions C07_class_leaf_one_gradient.
